@@ -16,6 +16,10 @@ class NpShim:
     def __getattr__(self, n):
         return getattr(self._np, n)
 
+    def isscalar(self, x):
+        from symx import core
+        return True if core.is_sym(x) else self._np.isscalar(x)      # a proxy stands for one number
+
     def array(self, obj, dtype=None, **kw):
         if dtype in (stubs.Float, stubs.Int):
             a = self._np.array(obj, dtype=object)
